@@ -17,7 +17,7 @@ META = {
     "functions": ["BaseSubProjectTask.set_all_attributes_from_json", "BaseSubProjectTask.set_work_amount_progress_of_unit_step_time", "BaseProject.read_simple_json/write_simple_json",
                   "BaseProject.remove_absence_time_list"] + SIM_FUNCTIONS,
     "stubs": STUB_NOTES + ["json/open in pDESy.model.base_project: in-memory store with JSON normalisation (replays use real files)"],
-    "assumptions": profiles.ASSUMPTIONS + ["the absence list given to simulate() has no duplicate entries", "unit pairs with integer or dyadic ratio in the solver claim (1,2,3,4 minutes; 30 s; 12/24/36 h; 250/500/1500 ms); the ratio arithmetic itself is concrete on every path"],
+    "assumptions": profiles.ASSUMPTIONS + ["unit pairs with integer or dyadic ratio in the solver claim (1,2,3,4 minutes; 30 s; 12/24/36 h; 250/500/1500 ms); the ratio arithmetic itself is concrete on every path"],
     "bounds": {"quick": {"sub-project work": "1..4", "absence steps": "<= 2 in 0..5", "unit pairs": 8, "predecessor work": "0..2"}, "thorough": {"sub-project work": "1..6", "unit pairs": 12}},
     "outside": profiles.OUTSIDE + ["D = 0 (a zero-length sub-project still shows one WORKING step)", "non-dyadic non-integer unit ratios"],
 }
@@ -239,6 +239,11 @@ def obligations(tier, seed):
         obs.append({"name": "sub/%ds-in-%ds/parent-through-json" % (ss, ps), "harness": "configure",
                     "cube": {"sub_s": ss, "par_s": ps, "remove": 1, "kind": 0, "stage": "success", "via_json": True},
                     "params": [["sw", 1, 3], ["sa0", 0, 4], ["sa1", 1, 6], ["pw", 0, 1]], "pre": "sa0 < sa1", "timeout": 150, "engine": "zsym"})
+    for remove in (0, 1):
+        # the sub-project's absence list names the same step twice
+        obs.append({"name": "sub/duplicate-absence-entry/remove=%d" % remove, "harness": "configure",
+                    "cube": {"sub_s": 60, "par_s": 60, "remove": remove, "kind": 0, "stage": "success", "pw": 1},
+                    "params": [["sw", 1, 4], ["sa0", 0, 5], ["sa1", 0, 5]], "pre": "sa0 == sa1", "timeout": 150, "engine": "zsym"})
     for remove in (0, 1):
         obs.append({"name": "sub/reconfigured-after-file-changed/remove=%d" % remove, "harness": "configure",
                     "cube": {"sub_s": 60, "par_s": 60, "remove": remove, "kind": 0, "stage": "success", "pw": 1, "reconfigure": True},
